@@ -36,7 +36,9 @@ ALSO = {"C15_m1": ["C05", "C01"], "C01_m2": ["C08", "C06"], "C02_m2": ["C01", "C
         "C13_m11": ["C12"], "C14_m11": ["C04"], "C15_m11": ["C11"], "C16_m11": ["C06", "C04"], "C17_m11": ["C12"], "C18_m11": ["C05", "C01"], "C19_m11": ["C03"], "C20_m11": ["C11"],
         "C01_m12": ["C18", "C03"], "C02_m12": ["C01"], "C03_m12": ["C18"], "C04_m12": ["C11", "C01"], "C05_m12": ["C01"], "C06_m12": ["C15", "C01"],
         "C07_m12": ["C09", "C01"], "C08_m12": ["C09"], "C09_m12": ["C11"], "C10_m12": ["C06"], "C11_m12": ["C20"], "C12_m12": ["C17", "C03"],
-        "C13_m12": ["C12", "C14"], "C14_m12": ["C04"], "C15_m12": ["C06"], "C16_m12": ["C06", "C08"], "C17_m12": ["C14"], "C18_m12": ["C19"], "C19_m12": ["C16"], "C20_m12": ["C11", "C04"]}
+        "C13_m12": ["C12", "C14"], "C14_m12": ["C04"], "C15_m12": ["C06"], "C16_m12": ["C06", "C08"], "C17_m12": ["C14"], "C18_m12": ["C19"], "C19_m12": ["C16"], "C20_m12": ["C11", "C04"],
+        "C01_m13": ["C08", "C06"], "C02_m13": ["C11", "C09"], "C04_m13": ["C01"], "C05_m13": ["C01"], "C06_m13": ["C11"], "C07_m13": ["C14", "C13"],
+        "C09_m13": ["C08", "C11"], "C11_m13": ["C09"], "C15_m13": ["C08", "C02"], "C16_m13": ["C09", "C06"]}
 
 
 def needs_of(notes: str) -> str:
